@@ -202,7 +202,9 @@ Theorem build_spec vs b reverse ix : 1 <= b -> build vs b reverse = Ret ix ->
   bins ix = b /\ count ix = length vs /\ rev_ok ix = reverse /\ verts ix = vs /\
   length (grid ix) = Z.to_nat (b * b) /\
   (forall e, In e (ends_of vs reverse) -> (cellnat ix (snd e) < Z.to_nat (b * b))%nat) /\
-  (forall c, nth c (grid ix) [] = map fst (filter (fun e => Nat.eqb (cellnat ix (snd e)) c) (ends_of vs reverse))).
+  (forall c, nth c (grid ix) [] = map fst (filter (fun e => Nat.eqb (cellnat ix (snd e)) c) (ends_of vs reverse))) /\
+  (0 < bsx ix)%Q /\ (0 < bsy ix)%Q /\
+  (forall e, In e (ends_of vs reverse) -> (gxmin ix <= fst (snd e))%Q /\ (gymin ix <= snd (snd e))%Q).
 Proof.
   intros Hb. unfold build.
   set (pts := ext_pts vs reverse).
@@ -243,11 +245,42 @@ Proof.
     nia. }
   split; [exact (eq_trans (fold_place_length (fun e : nat * pt => cellnat ix0 (snd e)) fst (ends_of vs reverse) (repeat [] (Z.to_nat (b * b)))) (repeat_length _ _))|].
   split; [exact RNG|].
-  intros c.
+  split.
+  { intros c.
   pose proof (fold_place_spec (fun e : nat * pt => cellnat ix0 (snd e)) fst (ends_of vs reverse) (repeat [] (Z.to_nat (b * b))) c) as FS.
   specialize (FS ltac:(intros e He; rewrite repeat_length; apply RNG, He)).
   assert (R0 : nth c (repeat (@nil nat) (Z.to_nat (b * b))) [] = []).
   { clear. generalize (Z.to_nat (b * b)). intros n. revert c. induction n; intros [|c]; cbn; auto. }
-  rewrite R0 in FS. cbn [app] in FS. exact FS.
+  rewrite R0 in FS; cbn [app] in FS; exact FS. }
+  split; [exact Bx|]. split; [exact By|].
+  intros e He. apply ends_of_pts in He. fold pts in He.
+  pose proof (fold_min_spec _ _ (fst (snd e)) Ex0 (in_map fst _ _ He)). pose proof (fold_min_spec _ _ (snd (snd e)) Ey0 (in_map snd _ _ He)).
+  split; lra.
 Qed.
+
+(* the lookup table maps every end id to the cell the constructor put it in (ids are distinct) *)
+Section Put.
+Context {E : Type}.
+Variables (key : E -> nat) (val : E -> nat).
+Definition put (lk : list nat) (e : E) := set_nth (key e) (fun _ => val e) lk.
+Lemma fold_put_length es : forall lk, length (fold_left put es lk) = length lk.
+Proof. induction es as [|e es IH]; intros lk; cbn; [reflexivity|]. rewrite IH. apply set_nth_length. Qed.
+Lemma fold_put_other es : forall lk k, (forall e, In e es -> (key e < length lk)%nat) -> ~ In k (map key es) ->
+  nth k (fold_left put es lk) 0%nat = nth k lk 0%nat.
+Proof.
+  induction es as [|e es IH]; intros lk k R H; cbn [fold_left]; [reflexivity|].
+  rewrite IH; [|intros e' He'; unfold put; rewrite set_nth_length; apply R; right; exact He'|intros C; apply H; right; exact C].
+  unfold put. rewrite nth_set_nth by (apply R; left; reflexivity).
+  destruct (Nat.eqb k (key e)) eqn:Ek; [|reflexivity]. apply Nat.eqb_eq in Ek. exfalso. apply H. left. symmetry. exact Ek.
+Qed.
+Lemma fold_put_spec es : forall lk e, NoDup (map key es) -> (forall e, In e es -> (key e < length lk)%nat) -> In e es ->
+  nth (key e) (fold_left put es lk) 0%nat = val e.
+Proof.
+  induction es as [|a es IH]; intros lk e ND R He; [contradiction|]. cbn [fold_left]. cbn [map] in ND. inversion ND as [|x l Hni ND']. subst x l.
+  assert (R' : forall e', In e' es -> (key e' < length (put lk a))%nat) by (intros e' He'; unfold put; rewrite set_nth_length; apply R; right; exact He').
+  destruct He as [<- | He].
+  - rewrite fold_put_other by assumption. unfold put. rewrite nth_set_nth by (apply R; left; reflexivity). rewrite Nat.eqb_refl. reflexivity.
+  - apply IH; assumption.
+Qed.
+End Put.
 
